@@ -223,3 +223,90 @@ Definition op_expected (ops : list mux_op) (k : nat) : option mux_ev :=
   | Some (OpHandle _ f _) => Some (EvHandle (is_some (new_topic_filter f)))
   | Some (OpServe i t) => Some (EvServe (mux_serve (mux_of (regs_on i (firstn k ops))) t))
   end.
+
+(* ====================================================================================
+   Additions (round 4): re-entrant dispatch.  Nothing above was changed.
+   A handler may, before it returns, dispatch another message through the same or another
+   ServeMux (servemux.go:47-54 is read-only on the mux, so the nested call sees the same
+   registrations and the outer loop continues with ITS message afterwards).
+   The code of the handlers is a parameter [acts]: handler h, when the message it is given has
+   topic [trig], calls muxes[j].Serve(&Message{Topic: t'}) — [acts h = Some (trig, j, t')].
+   Re-dispatch happens only while the nesting depth is below a bound (the fuel): that is how the
+   harness's handlers are written, and it makes every run finite.
+   The observation of a Serve is the flattened invocation order, each invocation tagged with its
+   nesting depth (pre-order of the call tree; the depths determine the tree).
+   ==================================================================================== *)
+
+Definition hact := option (str * nat * str).
+
+Fixpoint serve_nested (acts : nat -> hact) (st : muxes) (fuel : nat) (d : nat) (i : nat) (t : str)
+  {struct fuel} : list (nat * nat) :=
+  flat_map
+    (fun h =>
+       (d, h) ::
+       match fuel with
+       | O => []
+       | S fuel' =>
+           match acts h with
+           | Some (trig, j, t') => if str_eqb trig t then serve_nested acts st fuel' (S d) j t' else []
+           | None => []
+           end
+       end)
+    (mux_serve (st i) t).
+
+Inductive nmux_ev :=
+| NvHandle (accepted : bool)
+| NvServe (trace : list (nat * nat)).     (* (nesting depth, handler), in order of invocation *)
+
+Fixpoint nmuxes_run (acts : nat -> hact) (fuel : nat) (st : muxes) (ops : list mux_op) : list nmux_ev :=
+  match ops with
+  | [] => []
+  | OpHandle i f h :: r =>
+      NvHandle (is_some (new_topic_filter f))
+      :: nmuxes_run acts fuel (muxes_upd st i (mux_handle (st i) (f, h))) r
+  | OpServe i t :: r =>
+      NvServe (serve_nested acts st fuel 0 i t) :: nmuxes_run acts fuel st r
+  end.
+
+(* ---------- spec of a (possibly re-entrant) dispatch, written without the model ----------
+   [R j] = the registrations on instance j at the time of the outermost Serve.
+   nspec fuel d i t tr : a Serve of topic t on instance i at depth d produces trace tr:
+     the handlers hs selected for t among R i (exactly those, in order) are invoked in order;
+     each invocation (d,h) is followed by what that handler does (nact) before the next one. *)
+Inductive nspec (acts : nat -> hact) (R : nat -> list (str * nat)) :
+  nat -> nat -> nat -> str -> list (nat * nat) -> Prop :=
+| NS : forall fuel d i t hs tr,
+    select_rel t (R i) hs -> nlist acts R fuel d t hs tr -> nspec acts R fuel d i t tr
+with nlist (acts : nat -> hact) (R : nat -> list (str * nat)) :
+  nat -> nat -> str -> list nat -> list (nat * nat) -> Prop :=
+| NL_nil : forall fuel d t, nlist acts R fuel d t [] []
+| NL_cons : forall fuel d t h hs sub tr,
+    nact acts R fuel d h t sub -> nlist acts R fuel d t hs tr ->
+    nlist acts R fuel d t (h :: hs) ((d, h) :: sub ++ tr)
+with nact (acts : nat -> hact) (R : nat -> list (str * nat)) :
+  nat -> nat -> nat -> str -> list (nat * nat) -> Prop :=
+| NA_skip : forall fuel d h t,
+    (forall fuel' j t', fuel = S fuel' -> acts h <> Some (t, j, t')) -> nact acts R fuel d h t []
+| NA_call : forall fuel' d h t j t' sub,
+    acts h = Some (t, j, t') -> nspec acts R fuel' (S d) j t' sub -> nact acts R (S fuel') d h t sub.
+
+(* the invocations of the outer call itself: those at depth d *)
+Definition at_depth (d : nat) (tr : list (nat * nat)) : list nat :=
+  map snd (filter (fun e => Nat.eqb (fst e) d) tr).
+
+(* the trace prescribed for position k of a history, computed from the history alone *)
+Definition nserve_expected (acts : nat -> hact) (fuel : nat) (ops : list mux_op) (k : nat) : option nmux_ev :=
+  match nth_error ops k with
+  | None => None
+  | Some (OpHandle _ f _) => Some (NvHandle (is_some (new_topic_filter f)))
+  | Some (OpServe i t) =>
+      Some (NvServe (serve_nested acts (fun j => mux_of (regs_on j (firstn k ops))) fuel 0 i t))
+  end.
+
+Definition nop_spec (acts : nat -> hact) (fuel : nat) (ops : list mux_op) (k : nat) (e : nmux_ev) : Prop :=
+  match nth_error ops k with
+  | None => False
+  | Some (OpHandle _ f _) => exists b, e = NvHandle b /\ (b = true <-> valid_filter f)
+  | Some (OpServe i t) =>
+      exists tr, e = NvServe tr /\ nspec acts (fun j => regs_on j (firstn k ops)) fuel 0 i t tr
+  end.
